@@ -41,7 +41,7 @@ def c_threads(desc, uses):
     import c19_impl as I
     out = []
     for kind, tgt in uses:
-        out.append(f"({cbool(kind in ('inst', 'instkw', 'helper'))}, {cbool(kind in ('fields', 'dcfields'))}, "
+        out.append(f"({cbool(kind in INST_KINDS)}, {cbool(kind in ('fields', 'dcfields'))}, "
                    f"{I.model_tgt(desc, tgt)})")
     return clist(out)
 
@@ -57,7 +57,9 @@ def c_case(desc, uses, events, eager, lazy, out_e, out_l, metas):
 def gen_desc(rng, tier, force=None):
     """force: None | "zero" (a root class without any managed attribute, first in the chain) |
     "mid" (plain classes between the lazily decorated ones) | "names" (attribute names that are
-    parameter names of the library's own wrappers)"""
+    parameter names of the library's own wrappers) | "key" (the root class has a key, so every class
+    can be given it positionally, and some class defines __new__) | "inv" (Attr(invalidated_by=...)
+    declarations / cached spec_property members: the invalidation map is generated on first mutation)"""
     import c19_impl as I
     k = rng.choice([1, 2, 2, 3] if tier == "thorough" else [1, 2, 2])
     if force == "mid":
@@ -67,10 +69,18 @@ def gen_desc(rng, tier, force=None):
         nat = rng.choice([0, 1, 1, 2, 2, 3] if tier == "thorough" else [0, 1, 1, 2, 2])
         if force == "zero" and (i == 0 or rng.random() < 0.5):
             nat = 0
+        if force == "key" and i == 0:
+            nat = max(nat, 1)
+        if force == "inv":
+            nat = max(nat, 2 if i == 0 else 1)
         names = rng.sample(range(5), nat)
         attrs = []
-        for n in names:
+        for pos, n in enumerate(names):
             form = rng.choice(["attr", "attr", "field", "plain", "none"])
+            if force == "key" and i == 0 and pos == 0:
+                form = "plain"  # the key (it needs a default so that C() works)
+            if force == "inv" and pos == nat - 1:
+                form = "attr"
             typ = "int"
             dk, ini, rep, cmp_ = 0, True, True, True
             if form in ("attr", "field"):
@@ -86,6 +96,18 @@ def gen_desc(rng, tier, force=None):
             visible[n] = typ
             attrs.append([n, form, dk, ini, rep, cmp_, typ])
         c = {"attrs": attrs, "key": None, "frozen": False, "new": rng.random() < 0.3}
+        # invalidation edges: Attr(invalidated_by=[names visible here]) on attributes declared with Attr,
+        # and a cached spec_property member depending on visible attributes
+        p_inv = 0.8 if force == "inv" else 0.2
+        inv = []
+        for a in attrs:
+            others = sorted(m for m in visible if m != a[0])
+            if a[1] == "attr" and others and rng.random() < p_inv:
+                inv.append([a[0], sorted(rng.sample(others, rng.randint(1, min(2, len(others)))))])
+        if inv:
+            c["inv"] = inv
+        if visible and rng.random() < (0.4 if force == "inv" else 0.1):
+            c["prop"] = sorted(rng.sample(sorted(visible), rng.randint(1, min(2, len(visible)))))
         if visible and rng.random() < 0.35:  # decorator-level do_not_copy: names visible in this class (own or inherited)
             c["dnc"] = sorted(rng.sample(sorted(visible), rng.randint(1, min(2, len(visible)))))
         if rng.random() < (0.6 if nat == 0 else 0.15):
@@ -93,14 +115,23 @@ def gen_desc(rng, tier, force=None):
         if i + 1 < k and (force == "mid" and (i == 0 or rng.random() < 0.5) or force != "mid" and rng.random() < 0.25):
             # plain class M<i>(C<i>) between C<i> and C<i+1> (deep: two plain levels M<i>, N<i>)
             c["mid"] = {"new": rng.random() < 0.3, "deep": rng.random() < 0.3}
+            if visible and rng.random() < (0.3 if force == "inv" else 0.05):
+                c["mid"]["prop"] = [rng.choice(sorted(visible))]
         classes.append(c)
     # a key needs a default so that C() works: only plain int attributes of the class itself
     for c in classes:
         plain = [a[0] for a in c["attrs"] if a[1] == "plain"]
-        if plain and rng.random() < 0.25:
-            c["key"] = rng.choice(plain)
+        if plain and (rng.random() < 0.25 or force == "key"):
+            c["key"] = plain[0] if force == "key" else rng.choice(plain)
             break
     sub = {"new": rng.random() < 0.5} if rng.random() < (0.6 if force == "zero" else 0.4) else None
+    if sub is not None and visible and rng.random() < (0.4 if force == "inv" else 0.05):
+        sub["prop"] = [rng.choice(sorted(visible))]
+    if force == "key":
+        # some __new__ that USES its arguments: on a spec class, on a plain class in between, or both
+        holders = [c for c in classes] + [c["mid"] for c in classes if c.get("mid")]
+        if not any(h["new"] for h in holders):
+            rng.choice(holders)["new"] = True
     d = {"classes": classes, "sub": sub}
     if force == "names" or rng.random() < 0.3:
         names = list(I.NAMES)
@@ -114,7 +145,8 @@ def gen_desc(rng, tier, force=None):
     return d
 
 
-USE_KINDS = ["inst", "instkw", "meta", "fields", "dcfields", "helper"]
+USE_KINDS = ["inst", "instkw", "meta", "fields", "dcfields", "helper", "instpos", "instposkw", "mutate"]
+INST_KINDS = ("inst", "instkw", "helper", "instpos", "instposkw", "mutate")  # first uses that instantiate
 
 
 def valid(desc, uses):
@@ -133,21 +165,28 @@ def gen_valid(rng, tier, nthreads=None, force=None):
     import c19_impl as I
     for _ in range(200):
         d = gen_desc(rng, tier, force)
-        every = [[kind, t] for kind in USE_KINDS for t in I.targets_of(d)]
+        every = [[kind, t] for t in I.targets_of(d) for kind in I.kinds_for(d, t, USE_KINDS)]
+        if force == "inv" and not any(I.mut_deps(d, t) for t in I.targets_of(d)):
+            continue
         if not valid(d, every):
             continue
         return d
     raise RuntimeError("no valid class description generated")
 
 
+def pick_use(rng, desc, tgt):
+    import c19_impl as I
+    return [rng.choice(I.kinds_for(desc, tgt, USE_KINDS)), tgt]
+
+
 def gen_uses(rng, desc, nthreads):
     import c19_impl as I
     uses = []
     for _ in range(nthreads):
-        kind = rng.choice(USE_KINDS)
         tgts = I.targets_of(desc)
         # mostly the leaf (so that parents are bootstrapped through the child), sometimes a parent first
         tgt = rng.choice(tgts) if rng.random() < 0.4 else tgts[-1]
+        kind = rng.choice(I.kinds_for(desc, tgt, USE_KINDS))
         uses.append([kind, tgt])
     return uses
 
@@ -221,7 +260,7 @@ def twin_stage(chk, rng, pool, quick):
     import c19_twin as T
     jobs = [(sh, sq) for sh in T.shapes() for sq in T.sequences(sh)]
     if quick:
-        must = [j for j in jobs if len(j[0]["bases"]) == 2 and j[1][0] == "inst" and not j[0]["own"]]
+        must = [j for j in jobs if len(j[0]["bases"]) == 2 and j[1][0] in ("inst", "inst_pos") and not j[0]["own"]]
         rest = [j for j in jobs if j not in must]
         jobs = must + rng.sample(rest, 200)
     dnc = [(sh, sq) for sh in T.dnc_shapes() for sq in T.dnc_sequences(sh)]
@@ -394,9 +433,22 @@ def shrink(desc, uses, pol, code, pool, rng):
                 d2["classes"][ci].pop("priv", None)
                 d2["classes"][ci].pop("dnc", None)
                 cands.append((d2, u))
+            for fld in ("inv", "prop"):
+                if c.get(fld):
+                    d2 = json.loads(json.dumps(d))
+                    d2["classes"][ci].pop(fld)
+                    cands.append((d2, u))
+            if (c.get("mid") or {}).get("prop"):
+                d2 = json.loads(json.dumps(d))
+                d2["classes"][ci]["mid"].pop("prop")
+                cands.append((d2, u))
         if d.get("names"):
             d2 = json.loads(json.dumps(d))
             d2.pop("names")
+            cands.append((d2, u))
+        if d["sub"] and d["sub"].get("prop"):
+            d2 = json.loads(json.dumps(d))
+            d2["sub"].pop("prop")
             cands.append((d2, u))
         if d["sub"] and not any(x[1] == "sub" for x in u):
             d2 = json.loads(json.dumps(d))
@@ -505,23 +557,27 @@ def main2(tier, replay, pool):
 
     twin_info = twin_stage(chk, rng, pool, quick)
     # 1. sequential trigger independence: every trigger kind x every target, one thread
-    n_seq = 25 if quick else 150
+    n_seq = 30 if quick else 150
     js, ms = [], []
     import c19_impl as I
     # every fourth description each: a root class without managed attributes / plain classes between
     # the lazily decorated ones / attribute names colliding with the library's wrapper parameters
-    forces = [None, "zero", "mid", "names"]
+    # ... / a keyed root class (the key can be handed over positionally) with some __new__ that uses its
+    # arguments / invalidation edges (the invalidation map is generated on the first mutation)
+    forces = [None, "zero", "mid", "names", "key", "inv"]
     for si in range(n_seq):
-        d = gen_valid(rng, tier, force=forces[si % 4])
+        fc = forces[si % len(forces)]
+        d = gen_valid(rng, tier, force=fc)
         k = len(d["classes"])
-        for kind in USE_KINDS:
-            for tgt in I.targets_of(d):
+        for tgt in I.targets_of(d):
+            for kind in I.kinds_for(d, tgt, USE_KINDS):
                 js.append((d, [[kind, tgt]], {"kind": "preempt", "first": 0, "switch": []}))
-                ms.append(("seq" if forces[si % 4] is None else "seq-" + forces[si % 4], 1))
+                ms.append(("seq" if fc is None else "seq-" + fc, 1))
         # a parent used first, then the child
         if k > 1:
-            for kind in USE_KINDS:
-                js.append((d, [[kind, 0], [rng.choice(USE_KINDS), k - 1]], {"kind": "preempt", "first": 0, "switch": []}))
+            for kind in I.kinds_for(d, 0, USE_KINDS):
+                js.append((d, [[kind, 0], [rng.choice(I.kinds_for(d, k - 1, USE_KINDS)), k - 1]],
+                           {"kind": "preempt", "first": 0, "switch": []}))
                 ms.append(("seq-parent-first", 2))
     submit(js, ms, "sequential")
     # 2. thorough: every schedule with <= 2 pre-emptions for a small configuration (as far as
@@ -554,10 +610,10 @@ def main2(tier, replay, pool):
             u = [["fields", 0], [rng.choice(["fields", "dcfields", "meta", "instkw"]), I.targets_of(d)[-1]]]
         elif ci == 2:  # a plain class between two lazy spec classes; the child is used before the parent was
             d = gen_valid(rng, tier, force="mid")
-            u = [[rng.choice(USE_KINDS), I.targets_of(d)[-1]], [rng.choice(USE_KINDS), rng.choice(I.targets_of(d)[:2])]]
+            u = [pick_use(rng, d, I.targets_of(d)[-1]), pick_use(rng, d, rng.choice(I.targets_of(d)[:2]))]
         elif ci == 3:  # constructor keywords named like the wrappers' parameters, from two threads
             d = gen_valid(rng, tier, force="names")
-            u = [["instkw", I.targets_of(d)[-1]], [rng.choice(USE_KINDS), rng.choice(I.targets_of(d))]]
+            u = [["instkw", I.targets_of(d)[-1]], pick_use(rng, d, rng.choice(I.targets_of(d)))]
         elif ci == 4:  # parent and child without any __new__, both threads instantiate the child first:
             # the window between the removal of the child's hook and of the parent's (seeded C19-B1)
             while len(d["classes"]) < 2:
@@ -572,6 +628,17 @@ def main2(tier, replay, pool):
             leafs = [len(d["classes"]) - 1] + (["sub"] if d["sub"] else [])
             u = [[rng.choice(["inst", "instkw", "helper"]), len(d["classes"]) - 1],
                  [rng.choice(["inst", "instkw", "helper"]), rng.choice(leafs)]]
+        elif ci == 5:  # both threads make their first MUTATION of an instance of a class with invalidation
+            # edges: the invalidation map (lazily generated metadata) is built by one thread while the
+            # other thread's mutation looks it up (seeded C19-F1)
+            d = gen_valid(rng, tier, force="inv")
+            tg = [t for t in I.targets_of(d) if I.mut_deps(d, t)]
+            t0_ = tg[-1]
+            u = [["mutate", t0_], ["mutate", t0_ if rng.random() < 0.7 else rng.choice(tg)]]
+        elif ci == 6:  # the key handed over positionally by both threads, some __new__ using its arguments
+            d = gen_valid(rng, tier, force="key")
+            u = [[rng.choice(["instpos", "instposkw"]), I.targets_of(d)[-1]],
+                 [rng.choice(["instpos", "instposkw", "inst"]), rng.choice(I.targets_of(d))]]
         nth = len(u)
         if time.time() > deadline:
             truncated.append(f"configuration {ci}")
